@@ -53,7 +53,9 @@ Inductive phase :=
 
 (* where startup_cleanup_activities stands *)
 Inductive aphase :=
-| AStartup                 (* run_activity(STARTUP) *)
+| AStartup                 (* run_activity(STARTUP): rounds of execute_handlers_once until every handler is finished *)
+| AStartupBad              (* ... still in its rounds, but some handler has already failed for good (its outcome stays
+                              in the merged `outcomes`: the activity can only end with ActivityError) *)
 | AFlag                    (* it returned; started_flag.set() / raise_flag(ready_flag) are next, no await between *)
 | ASleep                   (* asyncio.Event().wait() *)
 | AWaitRoots               (* aiotasks.wait(all other root tasks) *)
@@ -63,6 +65,9 @@ Inductive aphase :=
 | AEnd.
 
 Inductive result := ROk | RErr (e : err) | RCancelled.
+
+(* what one invocation of a startup handler ended with (user code: an oracle) *)
+Inductive hres := HOk | HTemp (* retried in a later round *) | HPerm (* PermanentError / retries exhausted: final *).
 
 (* where run_tasks stands *)
 Inductive mphase :=
@@ -100,7 +105,8 @@ Inductive label :=
 | CoreStopped              (* startup_cleanup: stop(core_tasks) returned; reraise(core_done) *)
 | CleanupBegin | CleanupOk | CleanupFail
 | IsDone (t : task) (o : outcome)   (* observation only: t is done with o *)
-| Cancelled (t : task).             (* observation only: a cancellation of t has been requested *)
+| Cancelled (t : task)              (* observation only: a cancellation of t has been requested *)
+| StartupHandler (h : nat) (r : hres).   (* startup handler h invoked in some round of run_activity, ending with r *)
 
 (* ------------------------------------------------------------------ decidable equalities *)
 
@@ -267,7 +273,7 @@ Definition cancel_act (s : state) : option state :=
   match ph s (TRoot RAct) with
   | PRun =>
     match act s with
-    | AStartup | AWaitRoots =>     (* CancelledError is re-raised; finally: stop(core_tasks) *)
+    | AStartup | AStartupBad | AWaitRoots =>     (* CancelledError is re-raised; finally: stop(core_tasks) *)
         Some (set_act (set_ph s (cancel_in (ph s) [TAuth])) (AStopCore (Some OCancelled)))
     | AFlag => None                (* no suspension point there *)
     | ASleep => Some (set_act s AWaitRoots)          (* `except CancelledError: pass` *)
@@ -338,7 +344,7 @@ Definition step (s : state) (l : label) : option state :=
       end
   | StartupFail =>
       match act s, ph s (TRoot RAct) with
-      | AStartup, PRun =>
+      | AStartup, PRun | AStartupBad, PRun =>
           Some (mk (cancel_in (ph s) [TAuth]) (spawned s) (AStopCore (Some (OErr EStartup))) (mn s)
                    (started s) (ready s) (stopflag s) true (swept s) (ostopped s)
                    (asked s) (abandoned s) (graces s) (withdrawn s) (hung s))
@@ -524,6 +530,12 @@ Definition step (s : state) (l : label) : option state :=
   | IsDone t o =>
       match ph s t with PDone o' => if outcome_eqb o o' then Some s else None | _ => None end
   | Cancelled t => if cancel_seen (ph s t) then Some s else None
+  | StartupHandler _ r =>
+      match act s, ph s (TRoot RAct) with
+      | AStartup, PRun => Some (match r with HPerm => set_act s AStartupBad | _ => s end)
+      | AStartupBad, PRun => Some s
+      | _, _ => None
+      end
   end.
 
 Fixpoint run (s : state) (tr : list label) : option state :=
